@@ -141,9 +141,18 @@ Inductive reason :=
 | RKnownFinding (cls : string)   (* order-DEPENDENT, in a dependency outside the goflow module: recorded in KNOWN_FINDINGS.txt under
                           this class; the determinism driver carries a probe that reports it on every run *)
 | RCanonicalKeyWrite   (* dst.Set(canonical(k), v): BuildMap through a key transformer; invariant when it is injective on the keys *)
+| RMonotoneBudget      (* types.spendSize: every entry takes a NON-NEGATIVE cost off a budget, the walk stops (false) as soon as the
+                          budget is overdrawn; the callers read the budget only after `true` *)
 | RPureCalleeReviewed  (* a value-position callee the call summary cannot clear (interface dispatch over-approximated by method
                           name, parser outside the module) was reviewed: its result is a function of its arguments and it writes
                           nothing that outlives the call; the body is then an accepted body *).
+
+(* a budget walk: entry a costs `cost a`; None = the budget did not last (what is left is not observed then) *)
+Fixpoint spend {A : Type} (cost : A -> nat) (l : list A) (b : nat) : option nat :=
+  match l with
+  | [] => Some b
+  | a :: r => if Nat.leb (cost a) b then spend cost r (Nat.sub b (cost a)) else None
+  end.
 
 (* An entry is keyed STRUCTURALLY: package, static type of the ranged map, and the exact effect descriptor it was
    reviewed for.  The function name and ordinal are kept for the reader only: a pure refactor that moves the loop
